@@ -4,6 +4,10 @@
 T="${1:-quick}"; RC=0
 for S in /verif/seeded/*/; do
   S=${S%/}
+  if grep -q '"equivalent_on_repaired_tree": true' "$S/meta.json" 2>/dev/null; then
+    echo "$(basename "$S") skipped: can no longer manifest on the repaired tree (see its meta.json)"
+    continue
+  fi
   L=$(cd /verif && tools/seedrun.sh "seeded/$(basename "$S")" "$T")
   echo "$L"
   echo "$L" | grep -q " rc=1 " || RC=1
